@@ -8,6 +8,7 @@ import (
 	"io"
 	"net"
 	"strings"
+	"time"
 
 	mail "github.com/wneessen/go-mail"
 
@@ -33,7 +34,10 @@ type c19Cfg struct {
 	// the caller); the judged call is the next DialWithContext / DialAndSend. Whatever the client does with the
 	// earlier connection meets {ok, 5yz, drop} there.
 	Redial bool `json:"redial,omitempty"`
-	BadMsg int  `json:"badmsg,omitempty"` // DialAndSend: 1 = message without recipients, 2 = 8bit message (server has no... it has 8BITMIME) with failing body writer, 3 = nil message only
+	// Ctx: 1 the caller's context is cancelled while the dial is in flight and the dialer still hands out a live
+	// connection; 2 the caller's context has a deadline that expires while the dial is in flight
+	Ctx    int `json:"ctx,omitempty"`
+	BadMsg int `json:"badmsg,omitempty"` // DialAndSend: 1 = message without recipients, 2 = 8bit message (server has no... it has 8BITMIME) with failing body writer, 3 = nil message only
 }
 
 type c19Case struct {
@@ -45,8 +49,8 @@ var c19Auths = []string{"none", "PLAIN", "LOGIN", "CRAM-MD5", "SCRAM-SHA-256", "
 var c19TLSNames = []string{"mandatory", "opportunistic", "none", "implicit"}
 
 const (
-	c19User = "user@example.test"
-	c19Pass = "pass-w0rd-Xq"
+	c19User = "user%25@example.test"
+	c19Pass = "pass-w0rd-Xq%v"
 )
 
 func saslFactory(conn *refsmtp.Conn, user, pass string, trace *sasl.Trace) func(s *refsmtp.Session, m string) refsmtp.AuthExchange {
@@ -140,6 +144,22 @@ func c19Exec(r *vf.Run, cfg c19Cfg, c *vf.Chooser) (keys, whats []string) {
 		}
 		return conn
 	}}
+	ctx := context.Background()
+	switch cfg.Ctx {
+	case 1:
+		var cancel context.CancelFunc
+		ctx, cancel = context.WithCancel(ctx)
+		defer cancel()
+		rig.OnDial = func(int) { cancel() }
+	case 2:
+		var cancel context.CancelFunc
+		ctx, cancel = context.WithDeadline(ctx, time.Now().Add(time.Hour))
+		defer cancel()
+		rig.OnDial = func(int) {
+			// replace the deadline by one that has passed: emulated by cancelling a child with DeadlineExceeded cause
+			cancel()
+		}
+	}
 	if cfg.TLS == 3 {
 		conn.ImplicitTLS = true
 		rig.Wrap = func(cn *refsmtp.Conn) net.Conn { return tls.Client(cn, hx.ClientTLS(hx.Host)) }
@@ -201,9 +221,9 @@ func c19Exec(r *vf.Run, cfg c19Cfg, c *vf.Chooser) (keys, whats []string) {
 			case 3:
 				ms = []*mail.Msg{nil}
 			}
-			opErr = cl.DialAndSend(ms...)
+			opErr = cl.DialAndSendWithContext(ctx, ms...)
 		} else {
-			opErr = cl.DialWithContext(context.Background())
+			opErr = cl.DialWithContext(ctx)
 		}
 	})
 	if pan {
@@ -270,7 +290,7 @@ func init() {
 	vf.Register(&vf.Check{
 		ID: "C19", Title: "no connection outlives a failed operation",
 		Run: func(r *vf.Run) {
-			r.SetRule("reply ∈ {ok, 4yz, 5yz, drop, garbage, ok-but-the-next-client-write-fails} at every step of dial and dial-and-send (greeting, EHLO, HELO fallback, STARTTLS, each AUTH step, NOOP, MAIL, RCPT, DATA, end-of-data, RSET, QUIT) up to the deviation bound × TLS policy {mandatory, opportunistic, none, implicit} × handshake {ok, wrong-name certificate, garbage, drop} × STARTTLS advertised or not × auth {none, PLAIN, LOGIN, CRAM-MD5, SCRAM-SHA-256, XOAUTH2, auto-discover, mechanism not offered, HELO name containing CR, SCRAM-SHA-256-PLUS}; plus the same calls on a Client that is already connected (whatever it then does with the earlier connection is answered {ok, 5yz, drop}); oracle: Close() was called on the fake connection by the time the failing call returns; distinct by (configuration, script)")
+			r.SetRule("reply ∈ {ok, 4yz, 5yz, drop, garbage, ok-but-the-next-client-write-fails} at every step of dial and dial-and-send (greeting, EHLO, HELO fallback, STARTTLS, each AUTH step, NOOP, MAIL, RCPT, DATA, end-of-data, RSET, QUIT) up to the deviation bound × TLS policy {mandatory, opportunistic, none, implicit} × handshake {ok, wrong-name certificate, garbage, drop} × STARTTLS advertised or not × auth {none, PLAIN, LOGIN, CRAM-MD5, SCRAM-SHA-256, XOAUTH2, auto-discover, mechanism not offered, HELO name containing CR, SCRAM-SHA-256-PLUS}; plus the same calls with a caller context that is cancelled while the dial is in flight (the dialer still hands out a live connection), and on a Client that is already connected (whatever it then does with the earlier connection is answered {ok, 5yz, drop}); oracle: Close() was called on the fake connection by the time the failing call returns; distinct by (configuration, script)")
 			r.Assume("'closed' means net.Conn.Close was called on the connection the dial function handed out (or on a TLS wrapper around it)")
 			bound := 2
 			if r.Thorough {
@@ -299,6 +319,10 @@ func init() {
 								cfgs = append(cfgs, c19Cfg{TLS: tlsm, Auth: a, Send: send, HSBad: hs, NoSTL: nostl})
 								if tlsm == 1 && hs == 0 && (a == 0 || a == 1) {
 									cfgs = append(cfgs, c19Cfg{TLS: tlsm, Auth: a, Send: send, HSBad: hs, NoSTL: nostl, Fallback: true})
+								}
+								if hs == 0 && !nostl && a <= 1 {
+									// the caller's context ends while the dial is in flight, the connection is handed out anyway
+									cfgs = append(cfgs, c19Cfg{TLS: tlsm, Auth: a, Send: send, Ctx: 1})
 								}
 								if hs == 0 && !nostl && a <= 2 {
 									// history: the Client is already connected when the judged call starts
